@@ -40,6 +40,23 @@ Verdict(e) == LET cls == ClassFor(e) IN
               /\ IF e.w \in RawWrappers THEN H!ConformsRaw(cls, SeenSet(e)) ELSE H!Conforms(cls, SeenSet(e))
               /\ H!OrderOK(cls, e.seq)
 
+(* KF-C17-01 (open known finding, EPUB only; named deviation OpenCellDroppedAtEof).
+   epub_extractor._XhtmlTextExtractor collects cell text in _current_cell and moves it to the table only at
+   </td> / </tr> / </table>.  When those end tags never reach the handler -- they lie inside a removable
+   element that is not closed before the end of input -- the cell is dropped with the VISIBLE text it already
+   holds.  Domain: wrapper epub, the string opens a <td>/<th>, and the reference parse ends inside a removable
+   element.  As-built prediction: exactly the MUST words after the cell's start tag may be missing; every other
+   obligation (other MUST words, all MUSTNOT words, order) holds.                                              *)
+CellStart(toks) == { i \in 1..Len(toks) : toks[i].k = "S" /\ toks[i].n \in {"td", "th"} }
+InDomainKF1(e) == /\ e.w = "epub"
+                  /\ CellStart(e.toks) # {}
+                  /\ H!RefScan(e.toks, 1, H!R0(TRUE)).E # ""
+KnownKF1(e) == /\ InDomainKF1(e)
+               /\ LET cls == ClassFor(e)
+                      c0  == CHOOSE i \in CellStart(e.toks) : \A j \in CellStart(e.toks) : i <= j
+                      waived == [i \in 1..Len(e.toks) |-> IF i > c0 /\ cls[i] = "MUST" THEN "DC" ELSE cls[i]]
+                  IN H!Conforms(waived, SeenSet(e)) /\ H!OrderOK(cls, e.seq)
+
 WellEvent(e) == /\ e.w \in Wrappers
                 /\ H!WellFormed(e.toks)
                 /\ SeenSet(e) \subseteq 1..Len(e.toks)
@@ -62,6 +79,7 @@ TraceAccept ==
 ExplainObs == /\ IsEvent("Obs")
               /\ (~WellEvent(Ev)) => PrintT(<<"MALFORMED", tid, l>>)
               /\ (WellEvent(Ev) /\ ~Verdict(Ev)) => PrintT(<<"BAD", tid, l, ClassFor(Ev)>>)
+              /\ (WellEvent(Ev) /\ ~Verdict(Ev) /\ KnownKF1(Ev)) => PrintT(<<"KF1", tid, l>>)
 ExplainSpec == TraceInit /\ [][ExplainObs]_vars
 
 (* Model-agreement mode (self-test of the ALGORITHM part, never part of the verdict): the observed
